@@ -431,3 +431,103 @@ elif os.path.exists(cr_base):
         open(cr_path, "w").write(open(cr_base).read())
     print(json.dumps({"found": len(found) + len(cfound), "fallback": {**fallback, **cfallback, "cryptoRecipe": "not found"},
                       "differs_from_baseline": bool(drift), "items": found}))
+
+# ================================================================ wire format (C16): Gen/Wire.lean
+def lq(s):
+    return '"' + s.replace("\\", "\\\\").replace('"', '\\"') + '"'
+
+build_rs = strip_comments(src("teos-common/build.rs"))
+# serde attributes injected into the generated types: field -> adapter
+adapters = []
+for fld, attr in re.findall(r'\.field_attribute\(\s*"([^"]+)"\s*,\s*"((?:[^"\\]|\\.)*)"', build_rs, flags=re.S):
+    attr = attr.replace('\\"', '"')
+    m1 = re.search(r'with\s*=\s*"([^"]+)"', attr)
+    m2 = re.search(r'rename\s*=\s*"([^"]+)"', attr)
+    if m1:
+        a = {"hex::serde": "hex", "crate::ser::serde_be": "hexBE", "crate::ser::serde_vec_bytes": "vecHex",
+             "crate::ser::serde_status": "status"}.get(m1.group(1), "unknown:" + m1.group(1))
+        adapters.append((fld.split(".")[-1], a))
+    elif m2:
+        adapters.append((fld.split(".")[-1], "rename:" + m2.group(1)))
+    elif "flatten" in attr:
+        adapters.append((fld.split(".")[-1], "flatten"))
+# messages and their fields from the .proto files
+messages = []
+for pf in ("teos-common/proto/common/teos/v2/appointment.proto", "teos-common/proto/common/teos/v2/user.proto"):
+    t = re.sub(r"/\*.*?\*/", "", src(pf), flags=re.S)
+    t = re.sub(r"//.*", "", t)
+    for name, body in re.findall(r"message\s+(\w+)\s*\{((?:[^{}]|\{[^{}]*\})*)\}", t, flags=re.S):
+        body_flat = re.sub(r"enum\s+\w+\s*\{[^{}]*\}", "", body)
+        oneof = re.search(r"oneof\s+(\w+)\s*\{([^{}]*)\}", body_flat)
+        fields = []
+        if oneof:
+            fields.append((oneof.group(1), "oneof"))
+            body_flat = body_flat.replace(oneof.group(0), "")
+        for rep, ty, fn in re.findall(r"(repeated\s+)?([\w.]+)\s+(\w+)\s*=\s*\d+\s*;", body_flat):
+            fields.append((fn, ("repeated " if rep else "") + ty))
+        messages.append((name, fields))
+# status names (Display) and their parsing (FromStr)
+app_rs = strip_comments(src("teos-common/src/appointment.rs"))
+variants = dict((n, int(v)) for n, v in re.findall(r"(\w+)\s*=\s*(\d+)\s*,", re.search(r"pub enum AppointmentStatus\s*\{(.*?)\}", app_rs, flags=re.S).group(1)))
+disp = re.search(r"impl fmt::Display for AppointmentStatus.*?match self\s*\{(.*?)\};", app_rs, flags=re.S)
+status_show = [(variants[v], s) for v, s in re.findall(r"AppointmentStatus::(\w+)\s*=>\s*\"([^\"]+)\"", disp.group(1))] if disp else []
+frm = re.search(r"impl std::str::FromStr for AppointmentStatus.*?match s\s*\{(.*?)\n\s*\}\s*\n\s*\}", app_rs, flags=re.S)
+status_parse = [(s, variants[v]) for s, v in re.findall(r"\"([^\"]+)\"\s*=>\s*Ok\(AppointmentStatus::(\w+)\)", frm.group(1))] if frm else []
+# signed byte layouts: order and kind of the fields in the three to_vec functions
+def layout(text, type_name):
+    m = re.search(r"impl " + type_name + r"\s*\{(.*?)\n\}", text, flags=re.S)
+    b = fn_body(m.group(1), "to_vec") if m else None
+    if not b:
+        return None
+    out = []
+    for fld, rest in re.findall(r"self\.(\w+)((?:\.\w+\(\))*)", b):
+        if "to_be_bytes" in rest:
+            out.append((fld, "be32"))
+        elif "as_bytes" in rest:
+            out.append((fld, "var"))
+        elif fld == "locator":
+            out.append((fld, "fixed16"))
+        elif fld == "user_id":
+            out.append((fld, "fixed33"))
+        else:
+            out.append((fld, "var"))
+    return out
+rc_rs = strip_comments(src("teos-common/src/receipts.rs"))
+layouts = [("Appointment", layout(app_rs, "Appointment")), ("RegistrationReceipt", layout(rc_rs, "RegistrationReceipt")),
+           ("AppointmentReceipt", layout(rc_rs, "AppointmentReceipt"))]
+# the client's untagged answer type
+plug_http = strip_comments(src("watchtower-plugin/src/net/http.rs"))
+m = re.search(r"pub struct ApiError\s*\{(.*?)\}", plug_http, flags=re.S)
+api_error_fields = re.findall(r"pub\s+(\w+)\s*:", m.group(1)) if m else []
+m = re.search(r"#\[serde\(untagged\)\]\s*pub enum ApiResponse<T>\s*\{(.*?)\}", plug_http, flags=re.S)
+api_variants = re.findall(r"(\w+)\(", m.group(1)) if m else []
+wire_ok = adapters and messages and status_show and status_parse and all(l for _, l in layouts) and api_error_fields and api_variants
+wpath = os.path.join(gen_dir, "Wire.lean")
+wbase = os.path.join(base_dir, "Wire.lean.txt")
+if wire_ok:
+    W = ["/- GENERATED by tools/extract.py from teos-common/build.rs, the .proto files, appointment.rs, receipts.rs",
+         "   and watchtower-plugin/src/net/http.rs. Do not edit. -/",
+         "namespace Teos.Gen.Wire\n",
+         "/-- serde attributes injected by build.rs: field name → adapter -/",
+         "def adapters : List (String × String) := [" + ", ".join(f"({lq(a)}, {lq(b)})" for a, b in adapters) + "]\n",
+         "/-- protobuf messages: name → fields (name, type) -/",
+         "def messages : List (String × List (String × String)) := [",
+         ",\n".join("  (" + lq(n) + ", [" + ", ".join(f"({lq(f)}, {lq(t)})" for f, t in fs) + "])" for n, fs in messages),
+         "]\n",
+         "/-- `AppointmentStatus`: Display and FromStr -/",
+         "def statusShow : List (Nat × String) := [" + ", ".join(f"({n}, {lq(s)})" for n, s in status_show) + "]",
+         "def statusParse : List (String × Nat) := [" + ", ".join(f"({lq(s)}, {n})" for s, n in status_parse) + "]\n",
+         "/-- the byte strings that get signed: fields in order with their encoding -/",
+         "def layouts : List (String × List (String × String)) := [",
+         ",\n".join("  (" + lq(n) + ", [" + ", ".join(f"({lq(f)}, {lq(k)})" for f, k in l) + "])" for n, l in layouts),
+         "]\n",
+         "/-- the client's `ApiResponse<T>` (untagged): variants in the order serde tries them, and the fields of `ApiError` -/",
+         "def apiResponseVariants : List String := [" + ", ".join(lq(v) for v in api_variants) + "]",
+         "def apiErrorFields : List String := [" + ", ".join(lq(v) for v in api_error_fields) + "]\n",
+         "end Teos.Gen.Wire"]
+    t = "\n".join(W) + "\n"
+    if not os.path.exists(wpath) or open(wpath).read() != t:
+        open(wpath, "w").write(t)
+elif os.path.exists(wbase):
+    if not os.path.exists(wpath) or open(wpath).read() != open(wbase).read():
+        open(wpath, "w").write(open(wbase).read())
